@@ -33,6 +33,17 @@ CHECKS = {
         note='The finder patterns are contract stubs in (1); their contract (canonical text -> exactly the labelled segments) is '
              'the L-EXACT family of C01. Document invariant from the preprocessor: a Twp/Rge is followed by >= 1 character unless '
              'it ends the text. Strings outside the vocabulary, unicode, and >3 segments are outside the bound.'),
+    'C09': dict(
+        engine='S', category='other', design_ref='DESIGN.md §4 C09',
+        technique='CrossHair symbolic execution of the real tract-construction glue (construct_tracts, get_next_twprge/sec, '
+                  'SecUnpacker, unpack_twprge, Tract, TRS) on provenance documents with contract finder patterns; path tree exhausted',
+        text='For every document of the bounded family (0..2 / 0..3 segments incl. 3-digit sections, fillers, 8 (quick) / 11 parse '
+             'modes) every produced tract has a Twp/Rge/Sec that is in the standard form or built from error placeholders, never '
+             'undefined; twp/rge/sec/numbers/directions/twprge are exactly the decomposition of that string (spec/trs_spec.py); '
+             'its Twp/Rge and section occur in the text; it records the complete original text, the source tag and its 0-based '
+             'creation index. Tract(trs=s) decomposes every combination of valid / error / undefined components.',
+        note='Contract finder patterns as in C03 (contract = L-EXACT family of C01). Depends on C12 for the strictness of the '
+             'standard form.'),
     'C10': dict(
         engine='S+M', category='other', design_ref='DESIGN.md §4 C10',
         technique='CrossHair symbolic execution of the real flag-producing glue on provenance documents with contract finder '
